@@ -22,7 +22,8 @@
    at the low corner, Next walks it over the whole half-lattice cube (states = cases). *)
 EXTENDS Solids, TLC
 
-CONSTANT Big      \* FALSE: quick ranges, TRUE: thorough ranges
+CONSTANTS Big,     \* FALSE: quick ranges, TRUE: thorough ranges
+          Tiny     \* TRUE: only the alternative-definition group (smoke run for mutation demonstrations)
 
 Rng == IF Big THEN 3 ELSE 2
 Coords == (IF Big THEN -5 ELSE -3)..(IF Big THEN 5 ELSE 3)      \* half-lattice: coordinate = c/2
@@ -144,8 +145,8 @@ T0 == CHOOSE t \in Tfs1 : TRUE
 O0 == CHOOSE o \in Prims : TRUE
 
 Init ==
-  \/ grp = "bool" /\ a \in Leaves2 /\ b \in LeavesB /\ t1 \in TfsSmall /\ t2 = T0 /\ p = Corner(Pts)
-  \/ grp = "tf" /\ a \in Leaves2 /\ b = O0 /\ t1 \in TfsGen /\ t2 \in TfsSmall /\ p = Corner(PtsTf)
+  \/ ~Tiny /\ grp = "bool" /\ a \in Leaves2 /\ b \in LeavesB /\ t1 \in TfsSmall /\ t2 = T0 /\ p = Corner(Pts)
+  \/ ~Tiny /\ grp = "tf" /\ a \in Leaves2 /\ b = O0 /\ t1 \in TfsGen /\ t2 \in TfsSmall /\ p = Corner(PtsTf)
   \/ grp = "alt" /\ a \in Objs \cup Wedges /\ b = O0 /\ t1 = T0 /\ t2 = T0 /\ p = Corner(Pts)
 \* the point walks from the low corner over the whole point set of the group
 Next ==
